@@ -25,6 +25,7 @@ def ARR(t, n): return ('arr', t, n)
 def TUP(*ts): return ('tup', tuple(ts))
 def PH(t): return ('phantom', t)
 def BOX(t): return ('box', t)
+def PAREN(t): return ('paren', t)     # the type written in redundant parentheses: the same type, another source text
 def PARAM(n): return ('param', n)
 def NAMED(n, *a): return ('named', n, tuple(a))
 SELFOPT = ('selfopt',)
@@ -48,6 +49,7 @@ def src(t, selfsrc='Self'):
         return '(%s)' % ', '.join(src(x, selfsrc) for x in t[1])
     if k == 'phantom': return 'PhantomData<%s>' % src(t[1], selfsrc)
     if k == 'box': return 'Box<%s>' % src(t[1], selfsrc)
+    if k == 'paren': return '(%s)' % src(t[1], selfsrc)
     if k == 'param': return t[1]
     if k == 'assoc': return ('<%s as Tr>::A' % t[1]) if t[2] else ('%s::A' % t[1])
     if k == 'named': return t[1] + ('<%s>' % ', '.join(src(x, selfsrc) for x in t[2]) if t[2] else '')
@@ -65,7 +67,7 @@ def type_name_model(t, selfsrc):
 def relife(t):
     if t[0] == 'strref': return ('strref', 'static')
     if t[0] in ('cowref', 'innerlt'): return (t[0], 'static')
-    if t[0] in ('vec', 'opt', 'phantom', 'box', 'constarr'): return (t[0], relife(t[1])) + t[2:]
+    if t[0] in ('vec', 'opt', 'phantom', 'box', 'paren', 'constarr'): return (t[0], relife(t[1])) + t[2:]
     if t[0] == 'arr': return ('arr', relife(t[1]), t[2])
     if t[0] == 'tup': return ('tup', tuple(relife(x) for x in t[1]))
     if t[0] == 'named': return ('named', t[1], tuple(relife(x) for x in t[2]))
@@ -76,7 +78,7 @@ def subst(t, env):
     k = t[0]
     if k == 'param': return env[t[1]]
     if k == 'assoc': return ASSOC[env[t[1]]]
-    if k in ('vec', 'opt', 'phantom', 'box'): return (k, subst(t[1], env))
+    if k in ('vec', 'opt', 'phantom', 'box', 'paren'): return (k, subst(t[1], env))
     if k == 'arr': return ('arr', subst(t[1], env), t[2])
     if k == 'constarr': return ('arr', subst(t[1], env), env['N'])
     if k == 'tup': return ('tup', tuple(subst(x, env) for x in t[1]))
@@ -89,7 +91,7 @@ def subst(t, env):
 def uses_param(t):
     k = t[0]
     if k in ('param', 'assoc'): return True
-    if k in ('vec', 'opt', 'phantom', 'box', 'arr', 'constarr'): return uses_param(t[1])
+    if k in ('vec', 'opt', 'phantom', 'box', 'paren', 'arr', 'constarr'): return uses_param(t[1])
     if k in ('tup',): return any(uses_param(x) for x in t[1])
     if k == 'named': return any(uses_param(x) for x in t[2])
     return False
@@ -140,6 +142,7 @@ def vals(t):
         return [mk([0] * len(parts)), mk([-1] * len(parts))]
     if k == 'phantom': return [('PhantomData::<%s>' % src(t[1]), None)]
     if k == 'box': return [('Box::new(%s)' % x, y) for x, y in vals(t[1])]
+    if k == 'paren': return vals(t[1])
     if k == 'named':
         if t[1] == 'Inner':
             return [('Inner(%s)' % x, 'C{_:%s}' % y) for x, y in vals(t[2][0])][:2]
@@ -504,7 +507,9 @@ def all_members(d):
 NG = [I('u8'), I('u32'), BOOL, STRING, VEC(I('u8')), OPT(I('u16')), ARR(I('u8'), 3), TUP(I('u8'), BOOL), TUP(I('u8'), TUP(BOOL, I('u8'))),
       PH(I('u8')), ('strref', 'static'), BOX(I('u16')), I('i8'), I('u64'), I('u128'), SELFOPT, SELFVEC, TUP(I('u8'), PH(BOOL)), VEC(OPT(BOOL)), I('i32'), I('u16'), ('cowstr',), TUP(I('u8')), VEC(TUP(I('u32'))), TUP(TUP(BOOL), I('u8')),
       # PhantomData in a NESTED position: only a member whose own type is PhantomData is dropped, these are real members
-      OPT(PH(I('u8'))), VEC(PH(BOOL)), ARR(PH(I('u8')), 2), TUP(I('u32'), PH(I('u8')))]
+      OPT(PH(I('u8'))), VEC(PH(BOOL)), ARR(PH(I('u8')), 2), TUP(I('u32'), PH(I('u8'))),
+      # redundant parentheses at the top and inside
+      PAREN(I('u16')), PAREN(OPT(I('u8'))), OPT(PAREN(I('u8'))), PAREN(PAREN(BOOL)), PAREN(('strref', 'static'))]
 S8 = [I('u8'), I('u32'), BOOL, STRING, VEC(I('u8')), PH(I('u8')), SELFOPT, TUP(I('u8'), BOOL), ('cowstr',)]
 S5 = [I('u8'), STRING, PH(I('u8')), OPT(I('u16')), I('u32')]
 FNAMES = ['a', 'b', 'c']
@@ -561,7 +566,7 @@ def base_shapes(thorough):
 
 
 GEN_MEMBER = [PARAM('T'), VEC(PARAM('T')), OPT(PARAM('T')), ARR(PARAM('T'), 2), PH(PARAM('T')), NAMED('Inner', PARAM('T')), BOX(PARAM('T')), TUP(PARAM('T'), I('u8')),
-              VEC(OPT(PARAM('T'))), OPT(PH(PARAM('T'))), TUP(I('u32'), PH(PARAM('T')))]
+              VEC(OPT(PARAM('T'))), OPT(PH(PARAM('T'))), TUP(I('u32'), PH(PARAM('T'))), PAREN(PARAM('T')), PAREN(OPT(PARAM('T')))]
 
 
 def generic_shapes(thorough):
